@@ -36,8 +36,12 @@ SPEC = {
     'level_text': 'Proof (function level): Coq theorems over the executable model of computeRanges, groupByChainSelector, '
                   'filterOutExecutedMessages and getPendingExecutedReports, with executed lists in closed form (runs): see Props/C09.v. '
                   'Correspondence: the three functions against the model and against an independent interval-arithmetic specification every run. '
-                  'History level (partial, no theorem): never-reexecuted, pending-exact and one-cycle inclusion are monitored on real four-oracle histories '
-                  'under same-view / everything-ready conditions; C09_cycle_liveness is not proved.',
+                  'Cycle level: C09_never_reexecuted_cycle composes the pending filter with the C08 report builder (a message executed when the '
+                  'cycle started is not eligible for that cycle\'s report). Liveness is PARTIAL and per round: C07_*_complete for the two merge rounds, '
+                  'C09_liveness_filter_round_all_ready / _partial for the Filter round (a provable commit report whose all-ready chain report fits the '
+                  'budget gets a chain report with every eligible nonce-0 message); not proved: that honest readers yield f+1 identical observations, '
+                  'broken nonce chains, the greedy fallback. The history-level reading (never-reexecuted, pending-exact, one-cycle inclusion) is '
+                  'monitored on real four-oracle histories under same-view / everything-ready conditions.',
     'level_note': 'Trusted: Coq kernel, hand-written model, differential harness. No axioms.',
-    'modelled': 'computeRanges, groupByChainSelector, filterOutExecutedMessages, getPendingExecutedReports; the reader is an input',
+    'modelled': 'computeRanges, groupByChainSelector, filterOutExecutedMessages, getPendingExecutedReports, and (for the cycle / liveness theorems) the report builder of Model/ExecReport.v; the reader is an input',
 }
